@@ -110,6 +110,29 @@ class C11(Spec):
                 u = w.url(rng.randrange(3), "/missing%d" % si)       # 404: an error item, no page
                 urls.append(u)
                 continue
+            if r < 0.45:
+                # a source that is an ACTOR: its feed is its outbox, each entry an activity by that actor (verified as a timeline entry)
+                hk = rng.randrange(3)
+                owner = w.url(hk, "/users/u%d" % si)
+                outbox = w.url(hk, "/users/u%d/outbox" % si)
+                n = rng.choice((0, 1, 2, 4))
+                sts = sorted((rng.randint(1, 40) for _ in range(n)), reverse=True)
+                acts = []
+                for st in sts:
+                    t = next(tag)
+                    stamps[t] = st
+                    when = datetime.datetime(2023, 11, 14, 22, 13, 20, tzinfo=datetime.timezone.utc) + datetime.timedelta(milliseconds=250 * st)
+                    ts = when.strftime("%Y-%m-%dT%H:%M:%S.") + "%03dZ" % (when.microsecond // 1000)
+                    acts.append({"type": rng.choice(["Create", "Announce"]), "actor": owner, "published": ts,
+                                 "object": {"type": "Note", "name": "t%d" % t, "content": "x", "published": ts}})
+                coll = {"type": "OrderedCollection", "id": outbox, "orderedItems": acts}
+                adoc = {"type": "Person", "id": owner, "name": "U%d" % si, "preferredUsername": "u", "outbox": outbox}
+                w.register_strings(coll)
+                w.register_strings(adoc)
+                w.serve(outbox, netgen.ok_json(coll))
+                w.serve(owner, netgen.ok_json(adoc))
+                urls.append(owner)
+                continue
             npages = rng.choice((1, 1, 2, 3))
             sizes = [rng.choice((0, 1, 2, 3, 5)) for _ in range(npages)]
             total = sum(sizes)
